@@ -1269,6 +1269,9 @@ class Bpsec(AbstractApplication):
         ''' If configured add a BIB.
         The container must be reloaded beforehand.
         '''
+        if ctr.bundle.primary.bundle_flags & PrimaryBlock.Flag.IS_FRAGMENT:
+            # a fragment carries the security blocks of the original bundle
+            return
 
         # No configuration here yet
         for ctx in self._contexts.values():
@@ -1278,6 +1281,9 @@ class Bpsec(AbstractApplication):
         ''' If configured add a BCB.
         The container must be reloaded beforehand.
         '''
+        if ctr.bundle.primary.bundle_flags & PrimaryBlock.Flag.IS_FRAGMENT:
+            # a fragment carries the security blocks of the original bundle
+            return
 
         # No configuration here yet
         for ctx in self._contexts.values():
